@@ -9,12 +9,13 @@ structure SockSt where
   flag : Nat
   slot : Option Co
   tslot : Option Tm
+  tlock : Bool
   user : Option Co
   avail : Bool
   pend : Bool
   deriving DecidableEq, Repr
 
-def sockSt (st : St) (j : Sock) : SockSt := ⟨st.flag j, st.slot j, st.tslot j, st.user j, st.avail j, st.pend j⟩
+def sockSt (st : St) (j : Sock) : SockSt := ⟨st.flag j, st.slot j, st.tslot j, st.tlock j, st.user j, st.avail j, st.pend j⟩
 
 /-- the socket a caller that is being resumed was waiting on -/
 def waitSock (st : St) (c : Co) : List Sock := match st.upc c with | .wait s => [s] | _ => []
@@ -26,14 +27,14 @@ def touched (st : St) : Actor → Env → List Sock
   | .u c, e => (match uSock (st.upc c) with | some s => [s] | none => []) ++
                (match e with | .start s _ | .delTimer s | .del s => [s] | _ => [])
   | .k i, _ => (match st.kpc i with
-      | .start s _ _ | .set s _ _ _ | .store s _ _ | .load s _ _ | .reg s _ | .xtake s | .own s | .ownDis s _ => [s]
+      | .start s _ _ | .arm s _ _ | .set s _ _ _ | .store s _ _ | .load s _ _ | .reg s _ | .xtake s | .xDis s _ | .own s | .ownDis s _ => [s]
       | .take s => s :: (match st.slot s with | some c => waitSock st c | none => [])
       | .dis s c => s :: waitSock st c
       | _ => [])
   | .w i, e => (match st.wpc i, e with
       | .idle, .deliver s _ => [s]
-      | .idle, .fire t => (match st.tm t with | .armed s => [s] | _ => [])
-      | .sTake s, _ | .sDis s _, _ | .xtake s, _ | .fOr s _, _ => [s]
+      | .idle, .fire t => (match st.tm t with | .armed s | .popped s => [s] | _ => [])
+      | .sTake s, _ | .sDis s _, _ | .xtake s, _ | .xDis s _, _ | .fChk s _, _ | .fOr s _, _ => [s]
       | .fTake s _, _ => s :: (match st.slot s with | some c => waitSock st c | none => [])
       | _, _ => [])
   | .env, e => (match e with | .arrive s | .edge s => [s] | _ => [])
@@ -70,6 +71,7 @@ theorem frame_k (st st' : St) (k : Kt) (e : Env) (j : Sock) (hs : kstep st k (st
   cases pc with
   | off => simp [kstep] at hs
   | start s c r => crunchF
+  | arm s c r => crunchF
   | set s c r t => crunchF
   | store s c r => crunchF
   | load s c r => crunchF
@@ -80,6 +82,7 @@ theorem frame_k (st st' : St) (k : Kt) (e : Env) (j : Sock) (hs : kstep st k (st
   | xor c => crunchF
   | xio c => crunchF
   | xtake s => crunchF
+  | xDis s c => crunchF
   | reg0 s c r => crunchF
   | chk2 s c => crunchF
   | own s => crunchF
@@ -94,10 +97,12 @@ theorem frame_w (st st' : St) (w : Wk) (e : Env) (j : Sock) (hs : wstep st w (st
   | idle => cases e <;> crunchF
   | sTake s => crunchF
   | sDis s c => crunchF
+  | fChk s t => crunchF
   | fOr s t => crunchF
   | fTake s t => crunchF
   | xio c => crunchF
   | xtake s => crunchF
+  | xDis s c => crunchF
 
 theorem frame_e (st st' : St) (e : Env) (j : Sock) (hs : estep st e = some st')
     (hj : j ∉ touched st .env e) : sockSt st' j = sockSt st j := by
